@@ -980,8 +980,41 @@ def check_units(ctx, db):
     # scale_and_round_array used by polygons
     f = db.fn('gdstk::scale_and_round_array', required=False)
     if f is not None:
-        t = norm(clone.canon(f.body, f))
-        ctx.check(re.search(r'for \(uint64_t v(\d+) = \(2 \* p0\.count\); \(v\1 > 0\); \(v\1--\)\) \(\(\*\(v\d+\+\+\)\) = \(int64_t\)llround\(\(\(\*\(v\d+\+\+\)\) \* p1\)\)\)', re.sub(r'\s+', ' ', t)) is not None and 'FloatingToIntegral' not in ' '.join((c.cast or '') for c in f.walk()), 'R-UNIT', 'units/scale_and_round_array', f.loc(), 'point arrays are scaled and rounded component-wise with llround')
+        # interpreted (sa/minieval, IEEE doubles): every coordinate of every point is multiplied by the scaling and rounded to the nearest
+        # integer (half away from zero, as llround does), the output has as many points as the input
+        import math
+        from .. import minieval as M
+        ctx.touch(f)
+        bad = []
+        for pts in ([], [(1.5, -2.5)], [(0.49, 0.5), (-0.3, 0.3), (-0.5, 1000.25), (7.0, -7.0)]):
+            for sc in (2.0, 0.5, 1000.0):
+                def arr(lst):
+                    return M.Obj(items=M.Ptr(lst, 0) if lst else 0, count=len(lst), capacity=len(lst))
+                ref = [None]
+
+                def extra(callee, args, node):
+                    if (callee or '').split('::')[-1] in ('llround', 'lround'):
+                        v = float(args[0])
+                        return (int(math.floor(abs(v) + 0.5)) * (1 if v >= 0 else -1),)
+                    return None
+                mi = M.Mini(db, hook=M.array_hook(ref, extra), budget=50000, c_ints=True)
+                mi.obj_store = True
+                mi.ieee = True
+                ref[0] = mi
+                out = arr([])
+                try:
+                    mi.run(f.body, {f.params[0]['n']: arr([M.Obj(x=x, y=y) for x, y in pts]), f.params[1]['n']: sc, f.params[2]['n']: out})
+                except M.Return:
+                    pass
+                except M.OutOfBounds as ex:
+                    bad.append(str(ex))
+                    continue
+                want = [tuple(int(math.floor(abs(c_ * sc) + 0.5)) * (1 if c_ * sc >= 0 else -1) for c_ in p_) for p_ in pts]
+                got = [(o.get('x'), o.get('y')) for o in (out['items'].arr[out['items'].i:out['items'].i + out['count']] if out['count'] else [])]
+                if got != want and len(bad) < 2:
+                    bad.append('points %s x %s: stored %s, expected %s' % (pts, sc, got, want))
+                ctx.explored['valuations'] += 1
+        ctx.check(not bad, 'R-UNIT', 'units/scale_and_round_array', f.loc(), 'point arrays are scaled and rounded component-wise to the nearest integer', '; '.join(bad))
 
 
 def check_detection(ctx, db):
@@ -989,43 +1022,69 @@ def check_detection(ctx, db):
     f = db.fn('gdstk::is_circle')
     ctx.touch(f)
     dims.check(ctx, f, {'tolerance': 1, 'radius': 1, 'center': 1, 'point_array': 1}, min_sites=6)
-    # the neighbour test walks the closed boundary: `count` edges, starting with (last vertex, first vertex)
-    loop = next((l for l in f.walk() if l.k == 'ForStmt' and any(c.k == 'ReturnStmt' for c in l.walk())), None)
-    if loop is None:
-        raise AnalysisBroken('is_circle: vertex loop not found')
-    # index model of the pointer walk: trips T (count + T0), current vertex index c0 + k, predecessor p0 + k (mod count)
-    iv = next((v for v in loop.child('init').walk() if v.k == 'VarDecl'), None)
-    m = re.fullmatch(r'point_array\.count|\(point_array\.count - (\d+)\)', norm(iv.child('init').text())) if iv is not None else None
-    down = iv is not None and norm(loop.child('cond').text()) == '(%s > 0)' % iv.n and norm(loop.child('inc').text()) in ('(%s--)' % iv.n, '(--%s)' % iv.n)
-    if not m or not down:
-        raise AnalysisBroken('is_circle: vertex loop is not the `for (i = count [- k]; i > 0; i--)` idiom')
-    T0 = -int(m.group(1) or 0)
-    body = [s_ for s_ in loop.child('body').c if s_ is not None]
-    tests = [s_ for s_ in body if s_.k == 'IfStmt' and tables._always_leaves(s_.child('then'))]
-    if len(tests) != 1:
-        raise AnalysisBroken('is_circle: vertex loop does not hold exactly one rejecting test')
-    c = norm(tests[0].child('cond').text())
-    em = re.search(r'\(\(\*(\w+)\) - \(\*(\w+)\)\)\.length_sq\(\) >= neighbor_distance_sq', c)
-    rm = re.search(r'\(\(\*(\w+)\) - center\)\.length\(\) - radius\)\) >= tolerance', c) or re.search(r'\(\(\*(\w+)\) - center\)', c)
-    if not em or not rm or ' || ' not in c:
-        raise AnalysisBroken('is_circle: rejecting test is not `radial deviation || neighbour distance`')
-    cur, prev = em.group(1), em.group(2)
-    decl = {v.n: (norm(v.child('init').text()), v) for v in f.walk() if v.k == 'VarDecl' and v.child('init') is not None}
-    others = [s_ for s_ in body if s_ is not tests[0]]
-    c0 = p0 = None
-    if decl.get(cur, ('',))[0] == 'point_array.items':
-        if len(others) == 1 and norm(others[0].text()) == '(%s = (%s++))' % (prev, cur) and body.index(others[0]) > body.index(tests[0]):
-            c0 = 0
-            p0 = {'((point_array.items + point_array.count) - 1)': -1, 'point_array.items': 0}.get(decl.get(prev, ('',))[0])
-        elif len(others) == 1 and others[0].k == 'DeclStmt' and decl.get(prev, ('',))[0] == '(%s++)' % cur and body.index(others[0]) < body.index(tests[0]):
-            c0, p0 = 1, 0
-    if c0 is None or p0 is None:
-        raise AnalysisBroken('is_circle: predecessor/current pointer idiom not recognised')
-    pre = [i_ for i_ in f.body.c if i_ is not None and i_.k == 'IfStmt' and i_.pos < loop.pos and ('(*%s) - center' % cur) in norm(i_.child('cond').text()) and tables._always_leaves(i_.child('then'))]
-    edges_ok = T0 == 0 and (c0 - p0) == 1
-    verts_ok = (c0 == 0 and T0 == 0) or (c0 == 1 and T0 == -1 and len(pre) == 1)
-    ctx.check(edges_ok and verts_ok and rm.group(1) == cur, 'R-LOOP', 'is_circle/closed-boundary', loop.loc(), 'index model: %d+count trips, edges (k%+d, k%+d) mod count: every vertex is tested against the radius and every edge of the closed boundary, including last->first, against the neighbour distance' % (T0, p0, c0),
-              'index model of the vertex loop: count%+d trips over edges (k%+d, k%+d): %s' % (T0, p0, c0, 'the closing edge from the last vertex to the first is never tested' if not edges_ok else 'not every vertex is tested against the radius'))
+    # decided by interpretation (sa/minieval, IEEE doubles; libm answered by Python's math): a regular 96-gon of radius 10 about (3, -4)
+    # with tolerance 0.01 is a circle with that centre and radius; the same polygon with ONE vertex pushed outwards by five tolerances -
+    # every vertex in turn - is not (every vertex is tested against the radius); the polygon with one vertex removed, so that one edge
+    # is twice as long as the neighbour distance allows - every position in turn, including the gap that falls on the closing edge
+    # from the last vertex to the first - is not (every edge of the closed boundary is tested); fewer vertices than the sagitta
+    # allows are not
+    import math
+    from .. import minieval as M
+
+    def circle(pts, tol):
+        def arr(lst):
+            return M.Obj(items=M.Ptr(lst, 0) if lst else 0, count=len(lst), capacity=len(lst))
+        ref = [None]
+
+        def extra(callee, args, node):
+            c_ = callee or ''
+            short = c_.split('::')[-1]
+            if short in ('acos', 'sqrt', 'fabs', 'cos', 'sin', 'hypot') and len(c_.split('::')) <= 2:
+                try:
+                    return (getattr(math, short)(*[float(a_) for a_ in args]),)
+                except ValueError:
+                    return (float('nan'),)
+            return None
+        mi = M.Mini(db, hook=M.array_hook(ref, extra), budget=400000, c_ints=True)
+        mi.obj_store = True
+        mi.ieee = True
+        ref[0] = mi
+        center, hold = M.Obj(x=0.0, y=0.0), {'r': 0.0}
+        env = {f.params[0]['n']: arr([M.Obj(x=x, y=y) for x, y in pts]), f.params[1]['n']: tol, f.params[2]['n']: center, f.params[3]['n']: M.Ref(hold, 'r')}
+        try:
+            mi.run(f.body, env)
+            rv = None
+        except M.Return as r_:
+            rv = r_.v
+        return bool(rv), (center['x'], center['y']), hold['r']
+    N, R, C, TOL = 96, 10.0, (3.0, -4.0), 0.01
+    base = [(C[0] + R * math.cos(2 * math.pi * k / N), C[1] + R * math.sin(2 * math.pi * k / N)) for k in range(N)]
+    bad = []
+    runs = 0
+    try:
+        ok_, c_, r_ = circle(base, TOL)
+        runs += 1
+        if not ok_ or math.hypot(c_[0] - C[0], c_[1] - C[1]) > 1e-6 or abs(r_ - R) > 1e-6:
+            bad.append('the regular %d-gon of radius %g about %s with tolerance %g: returns %s, centre %s, radius %s' % (N, R, C, TOL, ok_, c_, r_))
+        step = 1 if ctx.tier == 'thorough' else 5
+        ks = sorted(set(list(range(0, N, step)) + [0, 1, 2, N - 2, N - 1]))
+        for k in ks:
+            pts = list(base)
+            pts[k] = (C[0] + (R + 5 * TOL) * math.cos(2 * math.pi * k / N), C[1] + (R + 5 * TOL) * math.sin(2 * math.pi * k / N))
+            runs += 1
+            if circle(pts, TOL)[0] and len(bad) < 3:
+                bad.append('vertex %d of %d lies five tolerances outside the circle, yet the polygon is taken for a circle: that vertex is not tested against the radius' % (k, N))
+            pts = base[:k] + base[k + 1:]
+            runs += 1
+            if circle(pts, TOL)[0] and len(bad) < 3:
+                bad.append('without vertex %d the edge %s is twice the allowed neighbour distance, yet the polygon is taken for a circle: that edge is not tested' % (k, 'from the last vertex to the first' if k in (0, N - 1) else '%d-%d' % (k - 1, k)))
+        runs += 1
+        if circle(base[::2], TOL)[0]:
+            bad.append('%d vertices on a circle of radius %g are accepted with tolerance %g: fewer than the sagitta allows' % (N // 2, R, TOL))
+    except M.OutOfBounds as ex:
+        bad.append(str(ex))
+    ctx.explored['valuations'] += runs
+    ctx.check(not bad, 'R-LOOP', 'is_circle/closed-boundary', f.loc(), 'interpreted on %d polygons: every vertex is tested against the radius and every edge of the closed boundary, including last->first, against the neighbour distance' % runs, '; '.join(bad[:2]))
 
     # Polygon::to_oas consults the detectors only under their option
     p = db.fn('gdstk::Polygon::to_oas')
@@ -1251,7 +1310,7 @@ def run(ctx):
 
 
 MANIFEST = dict(
-    text='Decides the structural necessary conditions of the OASIS save/load round trip for every writer option: each record instance any writer block can emit (all valuations of the option/detection branches) is consumed field by field by the reader arm of the same record and info byte; PROPERTY count nibble/explicit count pairing for counts 0..40 and the value type table PropertyType<->OasisDataType; repetition type codes with paired count biases and scaling, and unsigned sinks proven non-negative; PATH extension-scheme nibbles vs the extensions written and the end type, half-width sink; PLACEMENT angle code inverse for m=-9..9; integer sinks fed only by llround(v*scaling); all file bytes go through the signature accumulator except the signature itself (call graph from write_oas); CBLOCK cursor armed/cleared in pairs with the header written unbuffered, raw deflate on both sides; oas_validate signs exactly the bytes that pass through the writer\'s accumulator (file length - 4) with the same seeds, scheme codes and byte order; for compact-trapezoid types 0..15 the writer\'s slant-offset -> type table is the inverse of the reader\'s type -> corner-shift table; Reference union members accessed under their tag. Equality of re-loaded coordinates, circle tolerance, deflate round trip, the signature value and idempotence over cycles are not decided.',
+    text='Decides the structural necessary conditions of the OASIS save/load round trip for every writer option: each record instance any writer block can emit (all valuations of the option/detection branches) is consumed field by field by the reader arm of the same record and info byte; PROPERTY count nibble/explicit count pairing for counts 0..40 and the value type table PropertyType<->OasisDataType; repetition type codes with paired count biases and scaling, and unsigned sinks proven non-negative; PATH extension-scheme nibbles vs the extensions written and the end type, half-width sink; PLACEMENT angle code inverse for m=-9..9; integer sinks fed only by llround(v*scaling); all file bytes go through the signature accumulator except the signature itself (call graph from write_oas); CBLOCK cursor armed/cleared in pairs with the header written unbuffered, raw deflate on both sides; oas_validate signs exactly the bytes that pass through the writer\'s accumulator (file length - 4) with the same seeds, scheme codes and byte order; for compact-trapezoid types 0..15 the writer\'s slant-offset -> type table is the inverse of the reader\'s type -> corner-shift table; Reference union members accessed under their tag. Equality of re-loaded coordinates, circle tolerance, deflate round trip, the signature value and idempotence over cycles are not decided. The signature accumulator (oasis_write, oasis_putc, checksum32) is decided by interpretation in every stream state incl. CRC chunking beyond 4 GiB on virtual buffers (R-MODEL.accumulator); scale_and_round_array and the closed-boundary walk of is_circle (regular 96-gon, each vertex displaced / removed in turn; sampled inputs) likewise.',
     note='Trusted: clang front end, gx, sa/oasfields.py abstract writer interpretation (unclassifiable conditions raise analysis-broken). Primitive codecs are C19\'s obligations, conformance of the reader arms to SEMI P39 is C04\'s.',
-    technique='abstract interpretation of writer blocks under predicate atoms replayed against reader decision trees; exhaustive evaluation of pure integer code over small domains; code-table pairing with linear bias comparison; call-graph effect analysis (who may write the file); typestate on the CBLOCK cursor; tagged-union discipline',
+    technique='abstract interpretation of writer blocks under predicate atoms replayed against reader decision trees; exhaustive evaluation of pure integer code over small domains; code-table pairing with linear bias comparison; call-graph effect analysis (who may write the file); typestate on the CBLOCK cursor; tagged-union discipline + interpretation of the signature accumulator, scale_and_round_array and is_circle (sa/minieval, sa/oasacc.py)',
     design='§4 C02')
